@@ -351,6 +351,11 @@ func genPlan(seed uint64, n int, big bool) []op {
 	return plan
 }
 
+// nTorn: torn-log images derived from every killed child; stracePath: "" when strace is not installed
+const nTorn = 3
+
+var stracePath string
+
 // bigCallDuration: measured once per run — how long one RemoveKeys of ~300 keys takes here
 var bigCallDuration time.Duration
 
@@ -615,7 +620,10 @@ func seqCase(root string, id int, seed uint64, nops int) (out caseOut) {
 	return
 }
 
-func crashCase(root string, id int, seed uint64, n int, big bool, dl bool) (out caseOut) {
+// pw > 0: instead of a timed kill, the child runs under strace, which delivers SIGKILL on entry to the child's
+// pw-th pwrite64 (every write to the database file and to its log is one): half of those instants lie between
+// the two writes of one log frame.
+func crashCase(root string, id int, seed uint64, n int, big bool, dl bool, pw int) (out caseOut) {
 	rng := hlib.NewRng(seed ^ 0x5151)
 	dir := filepath.Join(root, fmt.Sprintf("crash%d", id))
 	ref := filepath.Join(root, fmt.Sprintf("crash%dref", id))
@@ -624,7 +632,7 @@ func crashCase(root string, id int, seed uint64, n int, big bool, dl bool) (out 
 	defer os.RemoveAll(dir)
 	defer os.RemoveAll(ref)
 	plan := genPlan(seed, n, big)
-	out.lines = append(out.lines, line{raw: true, lhs: fmt.Sprintf("# case crash %d seed %d n %d big %v deadlines %v", id, seed, n, big, dl)}, line{raw: true, lhs: "reset"})
+	out.lines = append(out.lines, line{raw: true, lhs: fmt.Sprintf("# case crash %d seed %d n %d big %v deadlines %v pwrite %d", id, seed, n, big, dl, pw)}, line{raw: true, lhs: "reset"})
 	var ks [][]byte
 	for _, o := range plan {
 		ks = append(ks, o.allKeys()...)
@@ -661,6 +669,11 @@ func crashCase(root string, id int, seed uint64, n int, big bool, dl bool) (out 
 		}
 	}
 	cmd := exec.Command(os.Args[0], "child", dir, strconv.FormatUint(seed, 10), strconv.Itoa(n), hlib.B(big))
+	if pw > 0 {
+		K, delay = -2, 0 // no timed kill
+		cmd = exec.Command(stracePath, append([]string{"-f", "-qq", "-o", "/dev/null", "-e", "trace=pwrite64", "-e",
+			fmt.Sprintf("inject=pwrite64:signal=SIGKILL:when=%d", pw)}, cmd.Args...)...)
+	}
 	if dl {
 		cmd.Args = append(cmd.Args, "dl")
 		cmd.Env = append(os.Environ(), "C23_THR="+tun.export())
@@ -711,6 +724,31 @@ func crashCase(root string, id int, seed uint64, n int, big bool, dl bool) (out 
 		}
 	}
 	cmd.Wait()
+	if pw > 0 && !done {
+		killed.Store(true)
+	}
+	if pw > 0 {
+		out.count("crash:killed-on-entry-to-a-pwrite64")
+		if fi, err := os.Stat(filepath.Join(dir, "sqlite3", "db-wal")); err == nil && fi.Size() > 32 {
+			if (fi.Size()-32)%(24+4096) == 24 {
+				out.count("pwrite-kill:log-ends-with-a-frame-header-without-page")
+			} else if (fi.Size()-32)%(24+4096) == 0 {
+				out.count("pwrite-kill:log-length-whole-frames")
+			} else {
+				out.count("pwrite-kill:log-length-other")
+			}
+		}
+	}
+	// crash images with a torn log tail, derived from the killed child's directory before anything re-opens it
+	var torn []tornImage
+	if !done {
+		torn = tornImages(rng, root, id, dir, nTorn, out.count)
+	}
+	defer func() {
+		for _, t := range torn {
+			os.RemoveAll(t.dir)
+		}
+	}()
 	switch {
 	case done:
 		out.count("crash:child-finished-before-kill")
@@ -748,13 +786,17 @@ func crashCase(root string, id int, seed uint64, n int, big bool, dl bool) (out 
 		out.emit("plan "+o.tokens(0), "-")
 	}
 	// recovery with the real constructor
-	rec := "openfail"
-	if kv, err := openStore(dir, hash1); err == nil {
-		raw := rawOpen(dir)
-		rec = dump(raw)
-		raw.Close()
-		kv.Close()
+	reopenDump := func(dir string) string {
+		rec := "openfail"
+		if kv, err := openStore(dir, hash1); err == nil {
+			raw := rawOpen(dir)
+			rec = dump(raw)
+			raw.Close()
+			kv.Close()
+		}
+		return rec
 	}
+	rec := reopenDump(dir)
 	// uncrashed reference states of the prefixes acked..issued, by the real store in a fresh directory
 	kv, err := openStore(ref, hash1)
 	if err != nil {
@@ -781,7 +823,20 @@ func crashCase(root string, id int, seed uint64, n int, big bool, dl bool) (out 
 	}
 	raw.Close()
 	kv.Close()
-	out.emit(fmt.Sprintf("recovered %d %d", acked, issued), rec)
+	how := ""
+	if pw > 0 {
+		how = fmt.Sprintf(" killed-on-entry-to-pwrite64-number-%d", pw)
+	}
+	out.emit(fmt.Sprintf("recovered %d %d", acked, issued)+how, rec)
+	for _, t := range torn {
+		rt := reopenDump(t.dir)
+		out.emit(fmt.Sprintf("recovered %d %d %s", acked, issued, t.how), rt)
+		if rt == rec {
+			out.count("torn:recovers-like-the-untouched-image")
+		} else {
+			out.count("torn:recovers-differently")
+		}
+	}
 	out.key = fmt.Sprintf("crash/%d/%d/%d/%v/%d", seed, acked, issued, killed.Load(), len(skipped))
 	return
 }
@@ -792,7 +847,7 @@ func main() {
 		return
 	}
 	r := hlib.Start()
-	r.Rule = "sequential cases: random histories of all write calls (put/del/pappend/premove/acquire/renew/release/import/remove, re-open with another hash function) on 6 keys with reads and raw table dumps; deadline cases: seeded history whose calls carry a context that ends while the call runs (deadline or cancel, drawn around an adaptive per-call-class threshold at the commit hand-over), next to an uncancelled reference store executing the acknowledged calls, with re-opens; crash cases: seeded deterministic history (every third one with such contexts) applied by a child process SIGKILLed while a seeded call is in flight (or during open/migration), re-opened by the real constructor; non-trivial = distinct (kind,result) trace / distinct (seed,acked,issued)"
+	r.Rule = "sequential cases: random histories of all write calls (put/del/pappend/premove/acquire/renew/release/import/remove, re-open with another hash function) on 6 keys with reads and raw table dumps; deadline cases: seeded history whose calls carry a context that ends while the call runs (deadline or cancel, drawn around an adaptive per-call-class threshold at the commit hand-over), next to an uncancelled reference store executing the acknowledged calls, with re-opens; crash cases: seeded deterministic history (every third one with such contexts) applied by a child process SIGKILLed while a seeded call is in flight (or during open/migration), re-opened by the real constructor; from the directory of every killed child three more crash images with a torn log tail (whole frames without commit mark and a strict prefix of one more frame written where the next transaction would log, or a cut inside logged frames that have no commit mark yet) are re-opened the same way; pwrite cases: the child runs under strace and is killed on entry to its N-th pwrite64 (between the two writes of one log frame in half of the cases); non-trivial = distinct (kind,result) trace / distinct (seed,acked,issued)"
 	cache := os.Getenv("WAZERO_CACHE")
 	if cache == "" {
 		cache = filepath.Join(os.TempDir(), "verif-wazero")
@@ -824,7 +879,13 @@ func main() {
 		ndl, ndlops = 80, 300
 		nho, nhoops = 40, 30
 	}
+	npw := 16
+	if r.Thorough() {
+		npw = 200
+	}
+	stracePath, _ = exec.LookPath("strace")
 	if r.Replay != "" {
+		npw = 0
 		// a crash is not replayable by construction; sequential lines are re-applied to a fresh real store
 		jobs = append(jobs, func() caseOut { return replayCase(root, r.ReplayLines()) })
 		nseq, ncrash, ndl, nho = 0, 0, 0, 0
@@ -851,7 +912,18 @@ func main() {
 		} else if i%3 == 1 {
 			n, big, dl = 20+rng.Intn(60), false, true // calls carry contexts that end while they run
 		}
-		jobs = append(jobs, func() caseOut { return crashCase(root, id, seed, n, big, dl) })
+		jobs = append(jobs, func() caseOut { return crashCase(root, id, seed, n, big, dl, 0) })
+	}
+	// kills on entry to the N-th pwrite64 of the child (strace): N spread over the writes of a short history
+	if stracePath != "" {
+		for i := 0; i < npw; i++ {
+			id, seed := ncrash+i, rng.U64()
+			n := 4 + rng.Intn(12)
+			pw := 1 + rng.Intn(20+9*n)
+			jobs = append(jobs, func() caseOut { return crashCase(root, id, seed, n, false, false, pw) })
+		}
+	} else if npw > 0 {
+		r.Count("crash:strace-not-available")
 	}
 	results := make([]caseOut, len(jobs))
 	var wg sync.WaitGroup
@@ -882,6 +954,13 @@ func main() {
 		}
 	}
 	r.Extra["case_wall_s_by_kind"] = wallBy
+	if os.Getenv("C23_WALLS") != "" {
+		for _, c := range results {
+			if len(c.lines) > 0 {
+				fmt.Fprintf(os.Stderr, "%6.2fs %s\n", c.wall.Seconds(), c.lines[0].lhs)
+			}
+		}
+	}
 	for _, c := range results {
 		for _, l := range c.lines {
 			if l.raw {
